@@ -47,6 +47,9 @@ Step ==
                /\ viol' = Mark(Clauses({<<e.out # "raised", "C16.xn-call">>}))
                /\ cnt' = [cnt EXCEPT !.calls = @ + 1, !.paused = @ + (IF lock # 0 THEN 1 ELSE 0)]
                /\ UNCHANGED <<lock, table, step>>
+          [] e.e = "failedbuild" ->        \* an earlier build of this thread raised: the lock is free again, nothing is left behind
+               /\ viol' = Mark(Clauses({<<lock = b, "C16.lock-leaked">>}))
+               /\ UNCHANGED <<lock, table, step, cnt>>
           [] OTHER -> /\ viol' = Mark({"WF.event"}) /\ UNCHANGED <<lock, table, step, cnt>>
 Spec == Init /\ [][Step]_vars
 Done == pos = Len(Traces[tid].ev) + 1
